@@ -64,6 +64,8 @@ type Scenario struct {
 	Yields    map[string]core.YieldSpec `json:"yields,omitempty"`
 	SimLocks  bool                      `json:"sim_locks,omitempty"`
 	IdleS     int                       `json:"idle_s,omitempty"` // Server.IdleTimeout (0 = default)
+	MaxHoldMS int                       `json:"max_hold_ms,omitempty"` // longest hold at a yield point (0 = 2 s)
+	SharedPT  bool                      `json:"shared_pt,omitempty"`   // every media numbers its payload types from 96
 	ClockOffS int                       `json:"clock_off_s"`
 	// HasBack / BackAt (source stream): the stream's description also holds a back channel at this
 	// position; the readers do not ask for back channels, so they neither see it nor may ever be
@@ -138,6 +140,9 @@ func gen(seed uint64, tier string) Scenario {
 			}
 		}
 	}
+	mcastClean := false
+	// payload types are per media: a fifth of the runs use the same ones in every media
+	sc.SharedPT = core.HS(seed, "c01.sharedpt", "", 0)%5 == 0
 	sc.StartSeq = uint16(r.Intn(65536))
 	if r.Bool(0.3) {
 		sc.StartSeq = uint16(65536 - r.Range(1, sc.Packets))
@@ -204,10 +209,27 @@ func gen(seed uint64, tier string) Scenario {
 			sc.Packets = 120 + int((x>>8)%80)
 		}
 	}
+	// half of the runs with a multicast reader over a network that loses nothing, with a server-side
+	// writer, at least two medias and no encryption: there every format of every media must arrive
+	// (groups and ports must be told apart)
+	if x := core.HS(seed, "c01.mcastclean", "", 0); x%2 == 0 {
+		for _, rd := range sc.Readers {
+			if rd.Transport == "mcast" {
+				n.UDPDrop, n.UDPBurst = 0, 0
+				sc.Source = "stream"
+				sc.Secure = false
+				if len(sc.Formats) < 2 {
+					sc.Formats = append(sc.Formats, 1)
+				}
+				mcastClean = true
+				sc.SharedPT = true
+			}
+		}
+	}
 	sc.Net = n
 
 	// yield points: a seeded subset
-	if r.Bool(0.6) {
+	if r.Bool(0.6) && !mcastClean {
 		sc.Yields = map[string]core.YieldSpec{}
 		cands := []string{"rb.pull.lock", "ap.run.exec", "ap.run.after", "ap.start", "ap.close.cancel", "ap.close.ring", "ap.close.join",
 			"ss.createWriter.pre", "ss.startWriter.pre", "ss.destroyWriter.pre", "ss.destroyWriter.mid",
@@ -244,6 +266,10 @@ func gen(seed uint64, tier string) Scenario {
 		// ... and requests answered while media flows: a short session timeout makes the readers send
 		// keep-alives every second, and the stream lasts a few seconds
 		sc.IdleS = 6
+		// (and no second-long stalls in these runs: a client whose reader is held for seconds at a
+		// time falls behind, its PAUSE waits longer for the answer than the server's IdleTimeout
+		// allows a connection to stay silent, and the server drops it - legitimately)
+		sc.MaxHoldMS = 30
 		// (a reader left paused would sit idle - a paused client sends no keep-alives - and be
 		// disconnected after IdleTimeout, legitimately: scripts end playing in these runs)
 		for i := range sc.Readers {
@@ -346,10 +372,14 @@ func makePayload(seed uint64, media int, pt uint8, counter int, maxSize int) []b
 	return p
 }
 
-func buildDesc(formats []int) *description.Session {
+// sharedPT: payload types start at 96 in every media (they are per media: two medias may use the same).
+func buildDesc(formats []int, sharedPT bool) *description.Session {
 	d := &description.Session{}
 	pt := uint8(96)
 	for mi, nf := range formats {
+		if sharedPT {
+			pt = 96
+		}
 		m := &description.Media{Type: description.MediaTypeApplication}
 		if mi%2 == 0 {
 			m.Type = description.MediaTypeVideo
@@ -397,8 +427,23 @@ func run(t *testing.T, sc Scenario) *core.Result {
 	if maxPayload < 10 {
 		maxPayload = 10
 	}
+	if sc.IdleS > 0 {
+		// (also for scenarios the minimiser derives: with a short IdleTimeout no script ends paused)
+		rs := append([]Reader(nil), sc.Readers...)
+		for i := range rs {
+			scr := rs[i].Script
+			for len(scr) > 0 && scr[len(scr)-1].Op == "pause" {
+				scr = scr[:len(scr)-1]
+			}
+			rs[i].Script = scr
+		}
+		sc.Readers = rs
+	}
 	opts := sys.Options{Seed: sc.Seed, Net: sc.Net, Yields: sc.Yields, SimLocks: sc.SimLocks, MaxSteps: 400000, Horizon: 20 * time.Minute,
 		ClockOffset: time.Duration(sc.ClockOffS) * time.Second, MaxHold: 2 * time.Second}
+	if sc.MaxHoldMS > 0 {
+		opts.MaxHold = time.Duration(sc.MaxHoldMS) * time.Millisecond
+	}
 	var summary map[string]any
 	res := sys.Run(t, opts, func(w *sys.World) {
 		w.ProbeInit("queue_full_reported", "reader_paused", "reader_left_early", "seq_wrapped", "udp_reader", "publisher_source",
@@ -433,7 +478,7 @@ func run(t *testing.T, sc Scenario) *core.Result {
 		var wmu sync.Mutex
 		var streamReady = make(chan struct{})
 		var stream *gortsplib.ServerStream
-		desc := buildDesc(sc.Formats)
+		desc := buildDesc(sc.Formats, sc.SharedPT)
 		plainMedias := append([]*description.Media(nil), desc.Medias...) // what a reader without back channels is offered
 		if sc.HasBack && sc.Source == "stream" {
 			a := &format.G711{PayloadTyp: 8, MULaw: false, SampleRate: 8000, ChannelCount: 1}
@@ -521,7 +566,7 @@ func run(t *testing.T, sc Scenario) *core.Result {
 		w.Go("writer", func() {
 			if sc.Source == "publisher" {
 				u, _ := base.ParseURL(url)
-				pdesc := buildDesc(sc.Formats)
+				pdesc := buildDesc(sc.Formats, sc.SharedPT)
 				if err := pub.StartRecording(url, pdesc); err != nil {
 					_ = u
 					w.Fail("c01/api-error publisher", "StartRecording over %s: %v", sc.PubTr, err)
@@ -907,6 +952,17 @@ func head(b []byte, n int) []byte {
 	return b
 }
 
+// holdsOnWritePath: the run holds goroutines at yield points of the stream's write path (queue,
+// writer goroutine, connection writes).
+func holdsOnWritePath(sc *Scenario) bool {
+	for k := range sc.Yields {
+		if strings.HasPrefix(k, "ap.") || strings.HasPrefix(k, "rb.") || strings.HasPrefix(k, "st.write") || strings.HasPrefix(k, "auto:") || strings.HasPrefix(k, "cf.") {
+			return true
+		}
+	}
+	return false
+}
+
 // checkReader is the gap-freedom check over the recorded history.
 func checkReader(w *sys.World, sc *Scenario, h *sys.Handler, rs *readerState, written, fwd map[fkey][]*wpkt, writerQueueFull bool) {
 	if rs.client == nil || rs.apiErr != "" {
@@ -943,7 +999,7 @@ func checkReader(w *sys.World, sc *Scenario, h *sys.Handler, rs *readerState, wr
 		// (Not when the scheduler holds goroutines at yield points: a writer goroutine that is held
 		// for tens of milliseconds per packet legitimately delivers only the first few packets of
 		// the queue before a short-lived reader leaves.)
-		if sc.Net.UDPDrop == 0 && sc.Net.UDPBurst == 0 && sc.Source == "stream" && !sc.Secure && !rs.switched && rs.diedG == 0 && !h.HadWriteError(nil) && len(sc.Yields) == 0 {
+		if sc.Net.UDPDrop == 0 && sc.Net.UDPBurst == 0 && sc.Source == "stream" && !sc.Secure && !rs.switched && rs.diedG == 0 && !h.HadWriteError(nil) && !holdsOnWritePath(sc) {
 			rs.mu.Lock()
 			defer rs.mu.Unlock()
 			for k, list := range fwd {
@@ -1221,7 +1277,7 @@ func init() {
 	f.Real = []string{"gortsplib.Server, ServerStream, ServerSession, ServerConn, Client (root package, all pkg/* and internal/* it uses)", "pion rtp/rtcp/srtp/sdp", "gorilla/websocket", "crypto/tls", "net/http request/response parsing", "bufio"}
 	f.Simulated = []string{"TCP and UDP sockets, listeners, port allocation (simnet through Server.Listen/ListenPacket/TLSListen and Client.DialContext/DialTLSContext/ListenPacket)", "clock, timers, deadlines (testing/synctest fake clock)", "entropy (crypto/rand.Reader, uuid)", "goroutine interleaving at the enabled yield sites"}
 	f.Excluded = []string{"pkg/multicast's raw-socket platform files (replaced in the scratch copy by a stand-in that binds the group address through the ListenPacket seam; everything above it - multicast writers, listeners, SETUP negotiation - is the real code; at most one multicast reader per run)", "back-pressure under TLS / WebSocket (window unbounded there, DESIGN 2.3)"}
-	f.Rule = "scenario = stream description (1..3 medias x 1..3 formats) x source (server-side writer | recording client over udp/tcp/http/ws) x 1..4 readers (udp/tcp/http/ws, plain or TLS+SRTP) with seeded join / pause / resume / leave scripts x (a quarter of the runs: simulation-aware locks, a yield point before every statement of pkg/conn and internal/bytecounter, IdleTimeout 6 s so that readers send keep-alives every second while media flows, streams of 3 s) x packet sequence (sizes 10..max, seeded timestamps/markers, consecutive sequence numbers from a seeded start incl. wrap, arbitrary on reliable carriers) x fault mix (latency, chunking incl. 1-byte, UDP drop/dup/reorder/burst, bounded window + receiver stalls) x enabled yield sites; non-trivial = at least one packet delivered to a reader and (>= 1 fault kind other than plain delay fired or >= 1 yield site hit); distinct = distinct hash of the canonical event log"
+	f.Rule = "scenario = stream description (1..3 medias x 1..3 formats; payload types unique across the medias, or - a fifth of the runs - numbered from 96 in every media) x source (server-side writer | recording client over udp/tcp/http/ws) x 1..4 readers (udp/tcp/http/ws, plain or TLS+SRTP) with seeded join / pause / resume / leave scripts x (a quarter of the runs: simulation-aware locks, a yield point before every statement of pkg/conn and internal/bytecounter, IdleTimeout 6 s so that readers send keep-alives every second while media flows, streams of 3 s) x packet sequence (sizes 10..max, seeded timestamps/markers, consecutive sequence numbers from a seeded start incl. wrap, arbitrary on reliable carriers) x fault mix (latency, chunking incl. 1-byte, UDP drop/dup/reorder/burst, bounded window + receiver stalls) x enabled yield sites; non-trivial = at least one packet delivered to a reader and (>= 1 fault kind other than plain delay fired or >= 1 yield site hit); distinct = distinct hash of the canonical event log"
 	f.Assumptions = []string{
 		"packets still queued when the reader itself sends PAUSE/TEARDOWN are not 'missing' (the reader has left)",
 		"completeness is waived for a run in which a write-queue-full error was reported to the writer or to OnStreamWriteError",
